@@ -105,6 +105,13 @@ POOL = [
     {"op": "rule", "rule": "pushdown_predicates", "sql": Q1, "read": None, "schema": "xyz"},
     {"op": "rule", "rule": "simplify", "sql": "SELECT a FROM x WHERE TRUE AND a = a AND (b = 1 OR b = 1)", "read": "postgres", "schema": "xyz"},
     {"op": "lineage", "sql": "SELECT a + b AS a FROM x", "read": "duckdb", "schema": "xyz", "column": "a"},
+    # one MappingSchema OBJECT shared by all threads of the run (cold caches when the threads start)
+    {"op": "optimize", "sql": "SELECT * FROM x JOIN y ON x.b = y.b", "read": "duckdb", "schema": "xyz", "shared_schema": True},
+    {"op": "optimize", "sql": "SELECT x.*, z.c FROM x JOIN z ON x.a = z.a WHERE z.c = 'k'", "read": None, "schema": "xyz", "shared_schema": True},
+    {"op": "optimize", "sql": Q2, "read": "snowflake", "schema": "xyz", "shared_schema": True},
+    {"op": "qualify", "sql": "SELECT * FROM mixed", "read": "bigquery", "schema": "xyz", "shared_schema": True},
+    {"op": "qualify", "sql": "SELECT * FROM x, y, z, w", "read": "postgres", "schema": "xyz", "shared_schema": True},
+    {"op": "qualify", "sql": "SELECT a, b FROM x", "read": "tsql", "schema": "xyz", "shared_schema": True},
     {"op": "optattr", "name": "optimize", "sql": Q1, "read": "trino"},
     {"op": "optattr", "name": "optimize", "sql": "SELECT a FROM x WHERE a IN (SELECT a FROM z)", "read": "athena"},
     {"op": "optattr", "name": "qualify_columns"},
@@ -224,7 +231,9 @@ def generate(prop, run_seed, tier):
         # same-call contention: every thread runs the SAME call a few times in warm code. Any per-call scratch state that
         # lives at class or module level instead of on the instance is then written by several threads at once.
         r_ = rng.random()
-        if r_ < 0.5:
+        if r_ < 0.12:
+            c = rng.choice([x for x in POOL if x.get("shared_schema")])
+        elif r_ < 0.5:
             c = POOL[rng.randrange(len(POOL))]
         else:
             from sim.corpus import corpus
